@@ -60,6 +60,22 @@ Theorem C11_parse_doc_refuted_eq : exists v, parse (doc_render [IQuoted v]) <> v
 Proof. exact parse_doc_refuted_eq. Qed.
 Print Assumptions C11_parse_doc_refuted_eq.
 
+(* V0 is as large as a class that judges items one by one can be: every clause has an item violating just that clause
+   and a documented context in which the parse goes wrong *)
+Theorem C11_V0_clauses_needed :
+  (exists v, qval_ok v = false /\ head_ok v = true /\ parse (doc_render [IQuoted v]) <> values [IQuoted v]) /\
+  (exists v w, qval_ok v = false /\ head_ok v = true /\ v0_item (IQuoted w) = true /\
+               parse (doc_render [IQuoted v; IQuoted w]) <> values [IQuoted v; IQuoted w]) /\
+  (exists v, qval_ok v = true /\ head_ok v = false /\ parse (doc_render [IQuoted v]) <> values [IQuoted v]) /\
+  (exists v w, qval_ok v = true /\ head_ok v = false /\ v0_item (IQuoted w) = true /\
+               parse (doc_render [IQuoted v; IQuoted w]) <> values [IQuoted v; IQuoted w]) /\
+  (exists v, word_ok v = false /\ parse (doc_render [IWord v]) <> values [IWord v]) /\
+  (exists v, word_ok v = true /\ no_inner_eq v = false /\ parse (doc_render [IWord v]) <> values [IWord v]) /\
+  (exists v w, word_ok v = false /\ v0_item (IWord w) = true /\ parse (doc_render [IWord v; IWord w]) <> values [IWord v; IWord w]) /\
+  (exists n v, name_ok n = false /\ word_ok v = true /\ parse (doc_render [INamed n v]) <> values [INamed n v]).
+Proof. exact V0_clauses_needed. Qed.
+Print Assumptions C11_V0_clauses_needed.
+
 (* Outputs: a command started after the end of a producer's attempt (a step at any distance, a handler) sees
    NAME = TrimSpace(captured bytes), provided no other attempt stored the same name in between ... *)
 Theorem C11_output : forall m0 pre n c mid j post,
